@@ -185,6 +185,12 @@ UNITS = [
     ("Ncvar", '#include "hdf_priv.h"\n#include "nc_priv.h"\n#include "mfhdf.h"\n',
      ["HDF_FILE", "netCDF_FILE", "CDF_FILE", "NC_BYTE", "NC_CHAR", "NC_SHORT", "NC_LONG", "NC_FLOAT", "NC_DOUBLE", "NC_UNLIMITED",
       "NC_NOFILL", "NC_NDIRTY", "NC_NSYNC", "XDR_ENCODE", "XDR_DECODE", "H4_MAX_VAR_DIMS", "FAIL"], []),
+    # C03: the internal piece / block sizes of the SD data path.  MAX_SIZE is private to putget.c (the piece in which hdf_xdr_NCvdata writes
+    # fill values before and behind the first hyperslab of a new element), the linked-block parameters of record variables are in nc_priv.h
+    ("SdBuf", '#include "hdf_priv.h"\n#include "nc_priv.h"\n#include "mfhdf.h"\n#include "%s/putget.c"\n' % MS,
+     ["MAX_SIZE", "BLOCK_MULT", "MAX_BLOCK_SIZE", "BLOCK_COUNT"], []),
+    # ... and the page of the buffered XDR stream behind netCDF-classic files (private to hdf_xdr.c)
+    ("XdrBuf", '#include "hdf_priv.h"\n#include "nc_priv.h"\n#include "mfhdf.h"\n#include "%s/hdf_xdr.c"\n' % MS, ["BIOBUFSIZ"], []),
     # C15: the attribute names hdf_read_ndgs (mfhdf/src/hdfsds.c) gives to the strings and annotations of an old-style data set (bytes of the C strings)
     ("NdgAttrs", '#include "hdf.h"\n#include "mfhdf.h"\n', ["DFTAG_SDL", "DFTAG_SDU", "DFTAG_SDF", "DFTAG_SDC", "DFTAG_DIL", "DFTAG_DIA"],
      [("NAME_%s" % n, "((unsigned char *)_HDF_%s)" % m, "strlen(_HDF_%s)" % m)
